@@ -575,9 +575,12 @@ class ActivityAnalyzer(transformer.Base):
   def _visit_arg_annotations(self, node):
     node.args.kw_defaults = self._visit_node_list(node.args.kw_defaults)
     node.args.defaults = self._visit_node_list(node.args.defaults)
+    # This pass can nest (a lambda inside a parameter annotation): restore the
+    # enclosing pass instead of ending it.
+    annotations_only = self._track_annotations_only
     self._track_annotations_only = True
     node = self._visit_arg_declarations(node)
-    self._track_annotations_only = False
+    self._track_annotations_only = annotations_only
     return node
 
   def _visit_arg_declarations(self, node):
@@ -642,8 +645,13 @@ class ActivityAnalyzer(transformer.Base):
       self._enter_scope(True)
 
       # Keep a separate scope for the arguments node, which is used in the CFG.
+      # The lambda may itself be written inside a parameter annotation: its own
+      # parameters are declared regardless of the enclosing annotation pass.
       self._enter_scope(False)
+      annotations_only = self._track_annotations_only
+      self._track_annotations_only = False
       node = self._visit_arg_declarations(node)
+      self._track_annotations_only = annotations_only
       self._exit_and_record_scope(node.args)
 
       # Track the body separately. This is for compatibility reasons, it may not
